@@ -14,7 +14,16 @@ for d in sorted(glob.glob(SRC + "/C*/out/[AB]")):
     pid = d.split("/")[3]
     v = d.split("/")[5]
     res = {}
-    for f in [f"{RES}/{pid}_{v}.json", f"{RES}/{pid}_{v}2.json"]:
+    later = sorted(x for x in glob.glob(f"{RES}/{pid}_{v}?.json") if not x.endswith("_stood.json"))
+    stood = f"{RES}/{pid}_{v}_stood.json"
+    if os.path.exists(stood) and os.path.getsize(stood) > 0:
+        try:
+            rs = json.load(open(stood))
+            res["checks_as_the_check_stood_before_this_round"] = {p: c["exit"] != 0 for p, c in rs.get("checks", {}).items()}
+            res["verif_rev_stood"] = rs.get("verif_rev")
+        except Exception:  # noqa: BLE001
+            pass
+    for f in [f"{RES}/{pid}_{v}.json"] + later:
         if os.path.exists(f) and os.path.getsize(f) > 0:
             r = json.load(open(f))
             for k in ("demo_passes_unchanged", "patch_applies", "demo_fails_with_patch", "suite_passes_with_patch", "suite_with_patch"):
@@ -37,7 +46,8 @@ for d in sorted(glob.glob(SRC + "/C*/out/[AB]")):
         "summary": m.get("summary"),
         "needs_to_manifest": m.get("needs"),
         "files": m.get("files"),
-        "author": "fresh sub-agent given only the property text and a scratch worktree of /repo",
+        "author": "fresh sub-agent given only the property text and a scratch worktree of /repo"
+        + (", the list of changes already studied for the property, and (adversarial rounds) a description of the testing envelope it should try to evade" if RND in ("2", "3", "4", "5") else ""),
         "confirmed_by_lead": {
             "how": "lib/seedtest.py: scratch worktree of /repo; `cargo test --offline --test demo` without and with the patch; `cargo test --offline` (84 unit tests + doctests) with the patch; then ./check <prop> --tier quick in a scratch copy of /verif whose harness points at the patched worktree",
             "demo_passes_on_unchanged_tree": res.get("demo_passes_unchanged"),
@@ -45,6 +55,7 @@ for d in sorted(glob.glob(SRC + "/C*/out/[AB]")):
             "existing_suite_passes_with_patch": res.get("suite_passes_with_patch"),
             "suite_output": res.get("suite_with_patch"),
         },
+        "detected_by_the_check_as_it_stood_when_the_change_arrived": res.get("checks_as_the_check_stood_before_this_round"),
         "checks": {p: {"detected": c["exit"] != 0, "class": c.get("class"), "first_line": (c["lines"][0] if c["lines"] else "")[:300],
                        "shrunk_replay_ops": len(c.get("replay_ops", []))} for p, c in res.get("checks", {}).items()},
     }
